@@ -46,9 +46,12 @@ impl World for Reactions {
             0 | 1 => 1 + g.below(5),
             _ => 2 + g.below(5),
         };
-        let grid = [0.0, 0.5, 1.0, 2.0, 10.0, 37.5];
+        // objective values are not assumed non-negative: a third of the cases use a grid with
+        // negative values (the energy ledger and the sign rule for kinetic energy do not care)
+        let negative = g.chance(0.33);
+        let grid: &[f64] = if negative { &[-40.0, -10.0, -4.0, -1.0, 0.0, 0.5, 2.0, 10.0] } else { &[0.0, 0.5, 1.0, 2.0, 10.0, 37.5] };
         let ke = [0.0, 0.1, 1.0, 5.0, 50.0];
-        let mut molecules: Vec<(f64, f64, f64)> = (0..n).map(|i| (i as f64, *g.pick(&grid), *g.pick(&ke))).collect();
+        let mut molecules: Vec<(f64, f64, f64)> = (0..n).map(|i| (i as f64, *g.pick(grid), *g.pick(&ke))).collect();
         // equal individuals (same solution and objective) are different molecules
         if n >= 2 && g.chance(0.3) {
             let (a, b) = (g.below(n), g.below(n));
@@ -80,8 +83,11 @@ impl World for Reactions {
                     0 => 0.0,
                     1 => total / n_products as f64,
                     2 => total / n_products as f64 + *g.pick(&[1e-9, 0.25, 3.0]),
-                    3 => (total / n_products as f64 - *g.pick(&[1e-9, 0.25, 3.0])).max(0.0),
-                    _ => *g.pick(&grid),
+                    3 => {
+                        let f = total / n_products as f64 - *g.pick(&[1e-9, 0.25, 3.0]);
+                        if negative { f } else { f.max(0.0) }
+                    }
+                    _ => *g.pick(grid),
                 };
                 (100.0 + k as f64, f)
             })
